@@ -262,7 +262,8 @@ example : (Impl.urlFromFilePath c17Idna (asciiStr "/a/./b") .posix).map Impl.pat
 
 /-- the acceptance condition (Windows): `winClassify s` = (pointer, is_unc) is the prefix analysis
     (`\\`, `\\?\`, `\\.\`, `\\?\UNC\` skipped); the rest must be a UNC path resp. a drive-absolute path whose
-    remainder `chk` (after the share name resp. after `C:\`) has no ".." segment and no NUL -/
+    remainder `chk` (after the share name resp. after `C:\`) has no ".." segment and no NUL; the parsed URL
+    is returned unless its hostname is "." (`Impl.rejectDotHost`, the final check of url_from_file_path) -/
 theorem C17_windows_eq :
     ∀ (idna : Idna) (s : List Nat),
       Impl.urlFromFilePath idna s .windows =
@@ -272,8 +273,9 @@ theorem C17_windows_eq :
         | none => none
         | some chk =>
           if [0x2E, 0x2E] ∈ splitOnP Impl.isWindowsSlash chk ∨ 0 ∈ chk then none
-          else Impl.parse idna .u8 (Impl.sFilePrefix ++ (if (winClassify s).2 then [] else [0x2F]) ++
-                 Impl.percentEncode Impl.rawPathNoEnc (winClassify s).1) none :=
+          else Impl.rejectDotHost (Impl.parse idna .u8
+                 (Impl.sFilePrefix ++ (if (winClassify s).2 then [] else [0x2F]) ++
+                 Impl.percentEncode Impl.rawPathNoEnc (winClassify s).1) none) :=
   Proofs.C17.urlFromFilePath_windows
 
 /-- Windows rejections: not `\\`-prefixed and not drive-absolute; a ".." segment after `C:\`; a NUL
